@@ -80,13 +80,15 @@ static inline HttpHdrCc *symbolicCc(const char *name, const bool withLists)
 {
     HttpHdrCc *cc = new HttpHdrCc;
     const uint32_t mask = vf_nondet_u32(name);
-    vf_assume(mask != 0 && mask < (1u << CC_OTHER)); // parse() failing (no recognised directive) = no cache_control object
+    // (bitwise operators throughout: no branch, hence no path split, also when compiled at -O0)
+    vf_assume((mask != 0) & (mask < (1u << CC_OTHER))); // parse() failing (no recognised directive) = no cache_control object
     cc->mask = (int32_t)mask;
     struct { HttpHdrCcType t; int32_t *v; } num[5] = { {CC_MAX_AGE, &cc->max_age}, {CC_S_MAXAGE, &cc->s_maxage}, {CC_MAX_STALE, &cc->max_stale},
         {CC_MIN_FRESH, &cc->min_fresh}, {CC_STALE_IF_ERROR, &cc->stale_if_error} };
     for (auto &n : num) {
         const int32_t v = (int32_t)vf_nondet_u32(name);
-        vf_assume((mask >> n.t) & 1 ? v >= 0 : v == -1);
+        const bool present = (mask >> n.t) & 1;
+        vf_assume((present & (v >= 0)) | (!present & (v == -1)));
         *n.v = v;
     }
     if (withLists) {
@@ -96,7 +98,7 @@ static inline HttpHdrCc *symbolicCc(const char *name, const bool withLists)
     }
     return cc;
 }
-static inline bool ccHas(const HttpHdrCc *cc, const HttpHdrCcType t) { return cc && ((cc->mask >> t) & 1); }
+static inline bool ccHas(const HttpHdrCc *cc, const HttpHdrCcType t) { return cc ? ((cc->mask >> t) & 1) : false; } // cc is a concrete pointer: no path split
 
 // vacuity label chosen by a (possibly symbolic) condition. optnone: clang otherwise merges the two calls into one call whose
 // argument is a select between (or a relative lookup table of) string literals, which the engine cannot resolve to a label
